@@ -206,3 +206,38 @@ def branches_when(root, text, value):
                 if blk is not None:
                     out.append(blk)
     return out
+
+
+def regen_loop(par, gen_node):
+    """The loop that keeps regenerating a name: `while <taken> { .. gen() .. }`, or `loop { .. if/match <free> => break .. ; gen() }`.
+    Returns (loop node, [membership tests: (`set text`, arg node)], form) or (None, [], None)."""
+    from synq import walk, show
+    cur = gen_node
+    while id(cur) in par:
+        p_ = par[id(cur)]
+        if p_.get("k") == "while" and (p_["body"] is cur or _contains(p_["body"], cur)):
+            tests = [(show(x["r"]), x["a"][0]) for x in walk(p_["c"]) if x.get("k") == "mcall" and x["m"] == "contains" and x["a"]]
+            return p_, tests, "while"
+        if p_.get("k") == "loop" and (p_["body"] is cur or _contains(p_["body"], cur)):
+            # the loop is left only through `break`s; each must be reached under a test that the name is free (`!S.contains(x)` as an if condition or a match guard)
+            breaks = [x for x in walk(p_["body"]) if x.get("k") == "break"]
+            tests, guarded = [], bool(breaks)
+            for b in breaks:
+                c2, conds = b, []
+                while id(c2) in par and c2 is not p_:
+                    q = par[id(c2)]
+                    if q.get("k") == "if":
+                        conds.append(q["c"])
+                    if q.get("k") == "match":
+                        conds += [a["guard"] for a in q["arms"] if a.get("guard") is not None and (a["body"] is c2 or _contains(a["body"], c2) or a["body"] is b)]
+                    c2 = q
+                neg = [x for c_ in conds for x in walk(c_) if x.get("k") == "un" and x["op"] == "!" and any(y.get("k") == "mcall" and y["m"] == "contains" for y in walk(x["e"]))]
+                if not neg:
+                    guarded = False
+                for x in neg:
+                    for y in walk(x["e"]):
+                        if y.get("k") == "mcall" and y["m"] == "contains" and y["a"]:
+                            tests.append((show(y["r"]), y["a"][0]))
+            return (p_, tests, "loop") if guarded else (p_, [], "loop-unguarded")
+        cur = p_
+    return None, [], None
